@@ -31,7 +31,8 @@ vars == <<case>>
 
 \* ---------------- forms
 Schemes  == {"redis", "rediss", "valkey", "valkeys", "unix", "http"}
-Creds    == {"none", "user", "userpass", "pass"}
+\* "esc": user and password with characters that must be percent-encoded in a URL (u@1 / p:/ 1 -> "u%401", "p%3A%2F%201")
+Creds    == {"none", "user", "userpass", "pass", "esc"}
 Hosts    == {"none", "name", "nameport", "portonly", "v6port", "v6"}     \* non-unix
 Socks    == {"sock", "nosock"}                                     \* unix: the path is the socket
 Paths    == {"absent", "valid", "invalid", "extra"}                \* non-unix: /<db>
@@ -39,7 +40,9 @@ Paths    == {"absent", "valid", "invalid", "extra"}                \* non-unix: 
 Params   == {"dial", "write", "addr", "proto", "cache", "name", "retries", "master", "skip", "db"}
 Forms    == [dial    |-> {"absent", "valid", "valid2", "invalid"},
              write   |-> {"absent", "valid", "valid2", "invalid"},
-             addr    |-> {"absent", "one", "two"},
+             \* "mixed": an address with its own host followed by a port-only one (which takes the host of the URL, not
+             \* the host of the address before it); "port": a port-only address alone
+             addr    |-> {"absent", "one", "two", "mixed", "port"},
              proto   |-> {"absent", "two", "three"},
              cache   |-> {"absent", "zero", "one"},
              name    |-> {"absent", "set"},
@@ -55,7 +58,7 @@ IsUnix(c) == c.scheme = "unix"
 IsTLS(c)  == c.scheme \in {"rediss", "valkeys"}
 
 \* ---------------- URL text of every form
-CredText == [none |-> "", user |-> "u1@", userpass |-> "u1:p1@", pass |-> ":p1@"]
+CredText == [none |-> "", user |-> "u1@", userpass |-> "u1:p1@", pass |-> ":p1@", esc |-> "u%401:p%3A%2F%201@"]
 HostText == [none |-> "", name |-> "h1", nameport |-> "h1:7001", portonly |-> ":7001", v6port |-> "[::1]:7001", v6 |-> "[::1]",
              sock |-> "", nosock |-> ""]
 PathText == [absent |-> "", valid |-> "/3", invalid |-> "/x", extra |-> "/3/4"]
@@ -66,7 +69,8 @@ Opt(cond, s) == IF cond THEN <<s>> ELSE <<>>
 Query(c) ==
      Opt(c.dial = "valid", "dial_timeout=5s") \o Opt(c.dial = "valid2", "dial_timeout=150ms") \o Opt(c.dial = "invalid", "dial_timeout=abc")
   \o Opt(c.write = "valid", "write_timeout=7s") \o Opt(c.write = "valid2", "write_timeout=250ms") \o Opt(c.write = "invalid", "write_timeout=xyz")
-  \o Opt(c.addr \in {"one", "two"}, "addr=h2:7002") \o Opt(c.addr = "two", "addr=h3:7003")
+  \o Opt(c.addr \in {"one", "two", "mixed"}, "addr=h2:7002") \o Opt(c.addr = "two", "addr=h3:7003")
+  \o Opt(c.addr \in {"mixed", "port"}, "addr=:7004")
   \o Opt(c.proto = "two", "protocol=2") \o Opt(c.proto = "three", "protocol=3")
   \o Opt(c.cache = "zero", "client_cache=0") \o Opt(c.cache = "one", "client_cache=1")
   \o Opt(c.name = "set", "client_name=cn")
@@ -87,6 +91,10 @@ HostName == [none |-> "localhost", name |-> "h1", nameport |-> "h1", portonly |-
 HostAddr == [none |-> "localhost:6379", name |-> "h1:6379", nameport |-> "h1:7001", portonly |-> "localhost:7001",
              v6port |-> "[::1]:7001", v6 |-> "[::1]:6379"]
 
+\* the host a port-only addr entry gets: the host of the URL (bracketed when it is an IPv6 literal), else localhost
+DefHost == [none |-> "localhost", name |-> "h1", nameport |-> "h1", portonly |-> "localhost", v6port |-> "[::1]", v6 |-> "[::1]",
+            sock |-> "localhost", nosock |-> "localhost"]
+
 DialMs(f)  == CASE f = "valid" -> 5000 [] f = "valid2" -> 150 [] OTHER -> 0
 WriteMs(f) == CASE f = "valid" -> 7000 [] f = "valid2" -> 250 [] OTHER -> 0
 
@@ -105,10 +113,11 @@ ErrRec == [err |-> TRUE, user |-> "", pass |-> "", addrs |-> <<>>, db |-> 0, dia
 Expected(c) ==
   IF IsError(c) THEN ErrRec
   ELSE [err        |-> FALSE,
-        user       |-> IF c.cred \in {"user", "userpass"} THEN "u1" ELSE "",
-        pass       |-> IF c.cred \in {"userpass", "pass"} THEN "p1" ELSE "",
+        user       |-> IF c.cred \in {"user", "userpass"} THEN "u1" ELSE IF c.cred = "esc" THEN "u@1" ELSE "",
+        pass       |-> IF c.cred \in {"userpass", "pass"} THEN "p1" ELSE IF c.cred = "esc" THEN "p:/ 1" ELSE "",
         addrs      |-> (IF IsUnix(c) THEN <<SockText[c.host]>> ELSE <<HostAddr[c.host]>>)
-                       \o Opt(c.addr \in {"one", "two"}, "h2:7002") \o Opt(c.addr = "two", "h3:7003"),
+                       \o Opt(c.addr \in {"one", "two", "mixed"}, "h2:7002") \o Opt(c.addr = "two", "h3:7003")
+                       \o Opt(c.addr \in {"mixed", "port"}, DefHost[c.host] \o ":7004"),
         db         |-> IF c.db = "valid" THEN 5 ELSE IF ~IsUnix(c) /\ c.path = "valid" THEN 3 ELSE 0,
         dialMs     |-> IF BugWriteToDial /\ c.write # "absent" THEN WriteMs(c.write) ELSE DialMs(c.dial),
         writeMs    |-> IF BugWriteToDial THEN 0 ELSE WriteMs(c.write),
@@ -176,7 +185,7 @@ Effective ==
   LET e == Expected(case)
   IN  ~e.err => /\ (case.dial \in {"valid", "valid2"} => e.dialMs > 0)
                 /\ (case.write \in {"valid", "valid2"} => e.writeMs > 0)
-                /\ (case.addr = "two" => Len(e.addrs) = 3)
+                /\ (case.addr \in {"two", "mixed"} => Len(e.addrs) = 3)
                 /\ (case.db = "valid" => e.db = 5)
 
 EmitCase == Emit => PrintT(<<"CASE", ToJson([parts |-> Parts(case), exp |-> Expected(case), form |-> case])>>)
